@@ -221,6 +221,30 @@ Fixpoint tok_last (gs : list guard) : bool :=
 Theorem token_is_consumed_last : forallb (fun row => tok_last (flat_map expand (snd row))) api_guards = true.
 Proof. vm_compute. reflexivity. Qed.
 
+(* the parameter conditions the model's checks were transliterated from, as the source writes them today: a changed
+   condition (`rate < BILLION`, `len >= 0`, a dropped same-context test ...) changes this table *)
+Definition params_of (n : string) : list string :=
+  match lookup n api_guards with
+  | Some l => flat_map (fun g => match g with GP c => [c] | _ => [] end) (flat_map expand l)
+  | None => []
+  end.
+Theorem parameter_checks_as_modelled :
+  params_of "m_mod_set_tokenbucket" = ["rate <= BILLION"] /\
+  params_of "m_mod_unstash" = ["len > 0"] /\
+  params_of "m_mod_stash" = ["evt"] /\
+  params_of "m_mod_ps_tell" = ["recipient"; "mod->ctx == recipient->ctx"] /\
+  params_of "m_mod_ps_poisonpill" = ["recipient"; "mod->ctx == recipient->ctx"; "m_mod_is(recipient, M_MOD_RUNNING)"] /\
+  params_of "m_mod_src_register_fd" = ["fd >= 0"; "prio_flags == 0 || prio_flags == M_SRC_PRIO_HIGH"] /\
+  params_of "m_mod_src_register_tmr" = ["its && its->ns > 0"] /\
+  params_of "m_mod_src_register_sgn" = ["sgs && sgs->signo > 0"] /\
+  params_of "m_mod_src_register_pid" = ["pid && pid->pid > 0"] /\
+  params_of "m_mod_src_register_task" = ["tid && tid->fn"] /\
+  params_of "m_ctx_deregister" = ["c->state == M_CTX_IDLE"] /\
+  params_of "m_ctx_dispatch" = ["c->state != M_CTX_ZOMBIE"] /\
+  params_of "m_ctx_stats" = ["c->state == M_CTX_LOOPING"; "stats"] /\
+  params_of "m_mod_deregister" = ["mod"].
+Proof. vm_compute. repeat split. Qed.
+
 (* the calls the source marks: every state change, become / unbecome, stash / unstash, batch size, subscribe / unsubscribe,
    tell / publish / broadcast / poison pill, and every source registration and deregistration *)
 Example token_guarded_calls :
